@@ -31,6 +31,8 @@ struct Cfg {
     /// with 2 passes: how many segments of the layout exist before the first pass (0 = all); the others are written
     /// between the passes, as flushes that arrive while the compactor idles
     split: usize,
+    /// n > 0: the n-th read of a segment object by the (first) compaction pass returns a copy with one flipped byte
+    read_fault: usize,
 }
 
 impl Cfg {
@@ -46,7 +48,7 @@ impl Cfg {
             if self.ttl_ms == 0 { "0" } else { "1h" },
             if self.max_records_selected == 0 { "all" } else if self.max_records_selected == TIGHT { "all(tight-target)" } else if self.max_records_selected == PAIR { "all(target-just-above-largest)" } else { "small-only" },
             self.max_per_compaction
-        ) + if self.passes > 1 { " passes2" } else { "" } + if self.split > 0 { " flush-between" } else { "" }
+        ) + if self.passes > 1 { " passes2" } else { "" } + if self.split > 0 { " flush-between" } else { "" } + if self.read_fault > 0 { " corrupt-segment-read" } else { "" }
     }
 }
 
@@ -142,8 +144,15 @@ fn check_pass(layout: &Layout, cfg: &Cfg, store: &VObjStore, compactor: &mut Com
         .as_ref()
         .map(|m| m.segments.iter().filter_map(|s| segment_facts(store, &s.key).map(|f| (s.id, f))).collect())
         .unwrap_or_default();
+    if pass == 0 && cfg.read_fault > 0 {
+        store.corrupt_nth_get("segment", cfg.read_fault);
+    }
+    let log_before = store.log_len();
     let outcome = run_compaction(compactor);
-    history.push(outcome.clone());
+    store.corrupt_nth_get("segment", 0);
+    // the segment object (if any) whose read was corrupted in transit during this pass
+    let unreadable: Option<String> = store.log().iter().skip(log_before).find(|o| o.fault == Some(vh::stores::ObjFault::CorruptRead)).map(|o| o.key.clone());
+    history.push(if pass == 0 && cfg.read_fault > 0 { format!("{outcome} (read #{} of a segment object was corrupted in transit)", cfg.read_fault) } else { outcome.clone() });
     let manifest_after = block_on(ManifestManager::new(store.clone(), PREFIX).load()).ok();
     // Why was the container that holds an older update of `key` not part of the compaction? (for the tombstone
     // clause of the property: the known defect is a tombstone dropped although an older value survives in a
@@ -172,7 +181,10 @@ fn check_pass(layout: &Layout, cfg: &Cfg, store: &VObjStore, compactor: &mut Com
             if !holds || !kept.contains(&seg.id) {
                 continue; // not about this key, or it was compacted
             }
-            classes.insert(if !small {
+            classes.insert(if unreadable.as_deref() == Some(seg.key.as_str()) {
+                // left out of this pass because its bytes arrived damaged: not a selection matter
+                "segment-unreadable-in-this-pass"
+            } else if !small {
                 "oversize-segment"
             } else if rank >= cfg.max_per_compaction {
                 "segment-beyond-max-count"
@@ -426,6 +438,7 @@ fn main() {
             max_per_compaction: r["cfg"]["max_per_compaction"].as_u64().unwrap() as usize,
             passes: r["cfg"]["passes"].as_u64().unwrap_or(1) as usize,
             split: r["cfg"]["split"].as_u64().unwrap_or(0) as usize,
+            read_fault: r["cfg"]["read_fault"].as_u64().unwrap_or(0) as usize,
         };
         match check_case(&layout, &cfg) {
             Ok(_) => {
@@ -469,17 +482,24 @@ fn main() {
         let mut v = Vec::new();
         for (clock_ms, ttl_ms) in [(0, HOUR_MS), (HOUR_MS - 1, HOUR_MS), (HOUR_MS + 10, HOUR_MS), (EPOCH_MS, HOUR_MS), (0, 0), (EPOCH_MS, 0)] {
             for (max_records_selected, max_per_compaction) in [(0usize, 10usize), (2, 10), (0, 2), (TIGHT, 10)] {
-                v.push(Cfg { clock_ms, ttl_ms, max_records_selected, max_per_compaction, passes: 1, split: 0 });
+                v.push(Cfg { clock_ms, ttl_ms, max_records_selected, max_per_compaction, passes: 1, split: 0, read_fault: 0 });
+            }
+        }
+        // a transient read corruption of the n-th segment the pass reads (the object itself is intact): whatever the pass
+        // does with a segment it could not decode, recovery must return the same state afterwards
+        for (max_records_selected, max_per_compaction) in [(0usize, 10usize), (0, 2)] {
+            for read_fault in 1..=3usize {
+                v.push(Cfg { clock_ms: HOUR_MS + 10, ttl_ms: HOUR_MS, max_records_selected, max_per_compaction, passes: 1, split: 0, read_fault });
             }
         }
         // two consecutive passes of one Compactor (what the first pass leaves behind - its output segment and that
         // segment's manifest entry - is the input of the second)
         for (clock_ms, ttl_ms) in [(HOUR_MS + 10, HOUR_MS), (EPOCH_MS, HOUR_MS), (EPOCH_MS, 0)] {
             for (max_records_selected, max_per_compaction) in [(PAIR, 2usize), (0usize, 2), (TIGHT, 10)] {
-                v.push(Cfg { clock_ms, ttl_ms, max_records_selected, max_per_compaction, passes: 2, split: 0 });
+                v.push(Cfg { clock_ms, ttl_ms, max_records_selected, max_per_compaction, passes: 2, split: 0, read_fault: 0 });
                 // flushes between the passes: the first 2 (3) segments before the first pass, the others after it
-                v.push(Cfg { clock_ms, ttl_ms, max_records_selected, max_per_compaction, passes: 2, split: 2 });
-                v.push(Cfg { clock_ms, ttl_ms, max_records_selected, max_per_compaction, passes: 2, split: 3 });
+                v.push(Cfg { clock_ms, ttl_ms, max_records_selected, max_per_compaction, passes: 2, split: 2, read_fault: 0 });
+                v.push(Cfg { clock_ms, ttl_ms, max_records_selected, max_per_compaction, passes: 2, split: 3, read_fault: 0 });
             }
         }
         v
@@ -516,7 +536,7 @@ fn main() {
                     Err((sig, detail)) => rep.violation(
                         sig,
                         detail,
-                        json!({"layout": layout_json(&layout), "cfg": {"clock_ms": cfg.clock_ms, "ttl_ms": cfg.ttl_ms, "max_records_selected": cfg.max_records_selected, "max_per_compaction": cfg.max_per_compaction, "passes": cfg.passes, "split": cfg.split}}),
+                        json!({"layout": layout_json(&layout), "cfg": {"clock_ms": cfg.clock_ms, "ttl_ms": cfg.ttl_ms, "max_records_selected": cfg.max_records_selected, "max_per_compaction": cfg.max_per_compaction, "passes": cfg.passes, "split": cfg.split, "read_fault": cfg.read_fault}}),
                     ),
                 }
             }
